@@ -403,12 +403,10 @@ func (fr *frame) loopHeader(li *loopInfo, b *ssa.BasicBlock, st *State) *State {
 		nw := fc.fresh(k+"_l", old.Sort)
 		st.heap[k] = nw
 		if k == "Alloc" {
-			fc.fact(fmt.Sprintf("(forall ((r Int)) (! (=> (select %s r) (select %s r)) :pattern ((select %s r))))", old.S, nw.S, nw.S))
+			fc.fact(allocMono(old.S, nw.S))
 			continue
 		}
 		if fc.c != nil && !fc.modEvery && !fc.modAll[k] && strings.HasPrefix(old.Sort, "(Array Int ") && !strings.HasPrefix(k, "VIS$") {
-			al := fc.heapGet(fr.old, "Alloc", arr(SInt, SBool))
-			_ = al
 			fc.fact(fmt.Sprintf("(forall ((r Int)) (! (=> (not %s) (= (select %s r) (select %s r))) :pattern ((select %s r))))", fc.allowed(fr.old, k, "r"), nw.S, old.S, nw.S))
 		}
 	}
